@@ -76,24 +76,23 @@ def call(
     if extra_args:
         raise TypeError(f"unexpected keyword argument '{extra_args[0]}'")
 
-    # The value is a float as soon as the coefficients or one numeric argument
-    # are inexact; integer arguments are then raised to their powers as floats.
+    for name, value in parameters.items():
+        if isinstance(value, (list, tuple)):
+            value = numpoly.polynomial(value)
+            parameters[name] = value.tonumpy() if value.isconstant() else value
+    # The value is a float as soon as the coefficients or one argument (number,
+    # array or polynomial) are inexact; integer arguments are then raised to
+    # their powers as floats.
     inexact = poly.dtype.kind in "fc" or any(
         isinstance(value, (float, complex))
         or (
             isinstance(value, (numpy.generic, numpy.ndarray))
-            and not isinstance(value, numpoly.ndpoly)
             and value.dtype.kind in "fc"
         )
         for value in parameters.values()
     )
     # Narrow integer types would wrap around when raised to a power:
     for name, value in parameters.items():
-        if isinstance(value, (list, tuple)):
-            value = numpoly.polynomial(value)
-            parameters[name] = value = (
-                value.tonumpy() if value.isconstant() else value
-            )
         if (
             isinstance(value, (numpy.generic, numpy.ndarray))
             and not isinstance(value, numpoly.ndpoly)
